@@ -14,6 +14,15 @@ func (rn *runner) sweepReq(epName, api, user, plan, method, cid, suffix string, 
 
 // modelledReq sends one request of known shape through judge with its `h` line for the model
 func (rn *runner) modelledReq(epName, api, user, plan, method, cid, suffix string, body *N, mp bool, tag string, undo bool) int {
+	return rn.modelledReqX(epName, api, user, plan, user, plan, method, cid, suffix, body, mp, tag, undo)
+}
+
+// modelledReqH: the context is that of (user, plan), the headers sent are (hUser, hPlan)
+func (rn *runner) modelledReqH(epName, api, user, plan, hUser, hPlan, method, cid, suffix string, body *N, mp bool, tag string) int {
+	return rn.modelledReqX(epName, api, user, plan, hUser, hPlan, method, cid, suffix, body, mp, tag, false)
+}
+
+func (rn *runner) modelledReqX(epName, api, user, plan, hUser, hPlan, method, cid, suffix string, body *N, mp bool, tag string, undo bool) int {
 	if rn.abort {
 		return -1
 	}
@@ -30,7 +39,10 @@ func (rn *runner) modelledReq(epName, api, user, plan, method, cid, suffix strin
 			ctype, raw = "application/msgpack", body.Msgpack()
 		}
 	}
-	req := request{user, plan, method, path, ctype, raw}
+	req := request{hUser, hPlan, method, path, ctype, raw}
+	if headersValid(hUser, hPlan) {
+		user, plan = hUser, hPlan // the headers pass: the request is that user's, under that plan
+	}
 	key := user + "/" + cid
 	ci := rn.w.cols[user][cid]
 	tokens := "n"
@@ -51,7 +63,7 @@ func (rn *runner) modelledReq(epName, api, user, plan, method, cid, suffix strin
 		}
 	}
 	hline := "h " + epName + " plan=" + itoa(pn[0]) + "," + itoa(pn[1]) + "," + itoa(pn[2]) + " ncols=" + itoa(len(rn.w.cols[user])) + " exists=" + itoa(exists) +
-		" cid=" + itoa(len(cid)) + " found=" + itoa(found) + " count=" + itoa(int(count)) + " ; " + schemaT + " ; " + tokens
+		" cid=" + itoa(len(cid)) + " found=" + itoa(found) + " count=" + itoa(int(count)) + hdrArgs(hUser, hPlan) + " ; " + schemaT + " ; " + tokens
 	st := rn.judge(req, epName, ctype, tag, "", key, hline)
 	if undo && st >= 200 && st < 300 && method != "GET" && !strings.HasSuffix(suffix, "/search") {
 		// undo: the sweep must not drift the state
@@ -129,6 +141,15 @@ func (rn *runner) boundarySweep() {
 			rn.sweepReq("v1Create", "v1", "dave", "BASIC", "POST", "", "", Obj("id", Str("sweepv1"), "vectorSize", Int(v), "distanceMetric", Str("dot")), mp, "v1create.vectorSize")
 		}
 	}
+	// ---- header middleware: user ids that are not a single path segment, missing headers, unknown plan
+	for _, u := range []string{"", ".", "..", "a/b", "a\\b", "/", "alice/..", "...", "a.b", "alice"} {
+		rn.modelledReqH("v2List", "v2", "alice", "BASIC", u, "BASIC", "GET", "", "", nil, false, "boundary:header.user")
+		rn.modelledReqH("v2Get", "v2", "alice", "BASIC", u, "BASIC", "GET", "base1", "", nil, false, "boundary:header.user")
+		rn.modelledReqH("v1Search", "v1", "alice", "BASIC", u, "BASIC", "POST", "v1col", "/points/search", Obj("vector", g.vec(4), "limit", Int(3)), true, "boundary:header.user")
+	}
+	for _, pl := range []string{"", "NOSUCHPLAN", "basic", "BASIC"} {
+		rn.modelledReqH("v2Get", "v2", "alice", "BASIC", "alice", pl, "GET", "base1", "", nil, false, "boundary:header.plan")
+	}
 	// ---- collection id in the path
 	for _, l := range []int{2, 3, 24, 25} {
 		rn.sweepReq("v2Get", "v2", "alice", "BASIC", "GET", strings.Repeat("z", l), "", nil, false, "path.id.len")
@@ -178,6 +199,11 @@ func (rn *runner) boundarySweep() {
 	// ---- malformed MessagePack the decoder itself trips over: a repeated key of an interface typed field
 	dupMeta := func() *N {
 		return Obj("points", Arr(Obj("id", Str(g.uuid()), "vector", g.vec(4), "metadata", Obj("a", Int(1)), "metadata", Null())))
+	}
+	// ---- a forged array32 / map32 header inside an interface typed position: 2^32-1 / 6*10^8 announced elements
+	for _, hdr := range []string{"\xdd\xff\xff\xff\xff", "\xdd\x24\x31\x65\x30", "\xdf\xff\xff\xff\xff"} {
+		rn.sweepReq("v2Insert", "v2", "alice", "BASIC", "POST", "base1", "/points", Obj("points", Arr(Obj("_id", Str(g.uuid()), "x", RawMP(hdr)))), true, "msgpack.huge-length-header")
+		rn.sweepReq("v1Insert", "v1", "alice", "BASIC", "POST", "v1col", "/points", Obj("points", Arr(Obj("id", Str(g.uuid()), "vector", g.vec(4), "metadata", RawMP(hdr)))), true, "msgpack.huge-length-header")
 	}
 	rn.sweepReq("v1Insert", "v1", "alice", "BASIC", "POST", "v1col", "/points", dupMeta(), true, "msgpack.duplicate-interface-key")
 	rn.sweepReq("v1Update", "v1", "alice", "BASIC", "PUT", "v1col", "/points", dupMeta(), true, "msgpack.duplicate-interface-key")
@@ -246,6 +272,35 @@ func (rn *runner) boundarySweep() {
 		q2 := Obj("query", Obj("property", Str("w"), "vectorVamana", Obj("vector", g.vec(l), "operator", Str("near"), "searchSize", Int(25), "limit", Int(3))), "limit", Int(3))
 		rn.sweepReq("v2Search", "v2", "carol", "BIG", "POST", "big", "/points/search", q2, l%2 == 1, "vamana.q.vector.4096")
 		rn.sweepReq("v2Insert", "v2", "carol", "BIG", "POST", "big", "/points", Obj("points", Arr(Obj("_id", Str(g.uuid()), "v", g.vec(l)))), l%2 == 0, "stored.vector.4096")
+	}
+	// ---- the same id in two shards: an insert of an existing id that is routed to another shard is accepted;
+	// an update / delete of such an id succeeds in both shards (valid requests throughout: 200 expected)
+	if rn.modelledReq("v2Create", "v2", "dave", "BASIC", "POST", "", "", Obj("id", Str("dupcol"), "indexSchema", Obj("k", Obj("type", Str("integer")))), false, "boundary:dup-id", false) == 200 {
+		rn.w.hist["dave/dupcol"] = append([]string{}, rn.w.hist["dave/"][len(rn.w.hist["dave/"])-1])
+		rn.refresh()
+		var ids []string
+		pts := &N{K: 'a'}
+		for i := 0; i < maxShardPointCount+2; i++ {
+			id := g.uuid()
+			ids = append(ids, id)
+			pts.A = append(pts.A, Obj("_id", Str(id), "k", Int(int64(i))))
+		}
+		rn.modelledReq("v2Insert", "v2", "dave", "BASIC", "POST", "dupcol", "/points", Obj("points", pts), false, "boundary:dup-id", false)
+		rn.refresh()
+		for _, id := range ids {
+			rn.modelledReq("v2Insert", "v2", "dave", "BASIC", "POST", "dupcol", "/points", Obj("points", Arr(Obj("_id", Str(id), "k", Int(99)))), false, "boundary:dup-id", false)
+			rn.refresh()
+		}
+		upd, del := &N{K: 'a'}, &N{K: 'a'}
+		for _, id := range ids {
+			upd.A = append(upd.A, Obj("_id", Str(id), "k", Int(7)))
+			del.A = append(del.A, Str(id))
+		}
+		rn.modelledReq("v2Update", "v2", "dave", "BASIC", "PUT", "dupcol", "/points", Obj("points", upd), false, "boundary:dup-id", false)
+		rn.modelledReq("v2Delete", "v2", "dave", "BASIC", "DELETE", "dupcol", "/points", Obj("ids", del), false, "boundary:dup-id", false)
+		rn.w.c.do(request{"dave", "BASIC", "DELETE", "/v2/collections/dupcol", "", nil})
+		delete(rn.w.hist, "dave/dupcol")
+		rn.refresh()
 	}
 	// ---- v1 vector length limit 2000 (needs v1 collections of that dimension; carol has one free slot)
 	for _, d := range []int{2000, 2001} {
